@@ -3,6 +3,8 @@
 #![allow(dead_code, unused_imports, static_mut_refs)]
 extern crate alloc;
 
+/// see l2::new_secret
+pub const SECRET_BY_DECODE: Option<usize> = Some(48);
 #[path = "../common/l2.rs"]
 pub mod l2;
 #[macro_use]
@@ -33,7 +35,7 @@ mod proofs {
         unsafe { aws_lc_rs::rand::LAST }
     }
     fn rcpt() -> Recipient<V> {
-        let sk = match forget(<V as SealingVersion<Public>>::random()) {
+        let sk = match crate::l2::new_secret::<V>() {
             Some(k) => k,
             None => {
                 kani::assume(false);
@@ -59,7 +61,7 @@ mod proofs {
     h!(c04_ffi_ledger_sign_verify, {
         let a0 = aws_lc_sys::model::live_objects();
         {
-            let sk = match forget(<V as SealingVersion<Public>>::random()) {
+            let sk = match crate::l2::new_secret::<V>() {
                 Some(k) => k,
                 None => return,
             };
@@ -83,6 +85,20 @@ mod proofs {
     h!(c04_public_key_usable_len1, public_key_usable::<1>());
     h!(c04_public_key_usable_len49, public_key_usable::<49>());
     h!(c04_public_key_usable_len97, public_key_usable::<97>());
+    /// the same without the unseal step (decode, encode, clone only)
+    h!(c04_public_key_codec_len1, public_key_codec::<1>());
+    h!(c04_public_key_codec_len49, public_key_codec::<49>());
+    fn public_key_codec<const N: usize>() {
+        let b: [u8; N] = kani::any();
+        let k = <V as HasKey<Public>>::decode(&b);
+        if let Some(k) = forget(k) {
+            let e = <V as HasKey<Public>>::encode(&k);
+            assert!(e.len() == 49, "an accepted public key does not encode to 49 bytes");
+            core::mem::forget(e);
+            core::mem::forget(k);
+            kani::cover!(true, "some key of this length is accepted");
+        }
+    }
     fn public_key_usable<const N: usize>() {
         let b: [u8; N] = kani::any();
         let a0 = aws_lc_sys::model::live_objects();
